@@ -32,9 +32,9 @@ LEAN_MODULES = {
     "C03": ["TFV.Properties.EA"],
     "C04": ["TFV.Properties.Rng"],
     "C05": ["TFV.Properties.EA"],
-    "C06": ["TFV.Properties.BinOps"],
-    "C07": ["TFV.Properties.DE"],
-    "C08": ["TFV.Properties.Tree", "TFV.Properties.TreeCR"],
+    "C06": ["TFV.Properties.BinOps", "TFV.Properties.Runs"],
+    "C07": ["TFV.Properties.DE", "TFV.Properties.Runs"],
+    "C08": ["TFV.Properties.Tree", "TFV.Properties.TreeCR", "TFV.Properties.Runs"],
     "C09": ["TFV.Properties.Tree", "TFV.Properties.TreeCR"],
     "C10": ["TFV.Properties.Gray"],
     "C11": ["TFV.Properties.Select"],
